@@ -210,8 +210,9 @@ PROPS['C07'] = dict(
     lean_modules=['FluentVerif.Props.C07'],
     theorems=['FV.Heap.inv_step', 'FV.Heap.C07_stable', 'FV.Heap.C07_returned_unchanged', 'FV.Heap.C07_args_unchanged',
               'FV.Heap.C07_legacy_witness'],
-    suites=_PACKED_SUITES,
-    rule=_PACKED_RULE,
+    suites=_PACKED_SUITES + [_RT_SUITE, _CHUNK_SUITE],
+    rule=_PACKED_RULE + " || rt suite (a deep snapshot of the caller's message incl. timestamp zones is compared before/after every "
+         "encode) || chunk suite (the string GetChunk returned is re-read after two later GetChunk calls)",
     explanation="Heap model with one owner per storage location (pooled / in flight for goroutine t / returned / argument); "
                 "C07_stable: for every schedule of get / write / return-a-copy / put steps of any number of goroutines and any "
                 "pool choices, every returned value and every argument still reads as at return / call. The model's claim that "
